@@ -3,7 +3,9 @@ package main
 import (
 	"fmt"
 	"go/ast"
+	"go/token"
 	"go/types"
+	"golang.org/x/tools/go/ssa"
 	"sort"
 	"strings"
 )
@@ -140,4 +142,185 @@ func checkMembersDecoded(res *Result, rule string, names []string, why string) {
 	sort.Strings(bad)
 	res.Count(rule+" (type, member) pairs", n, len(names))
 	res.check(len(bad) == 0, rule, "streams/impl", "-", fmt.Sprintf("every type decodes and claims its %s member(s) (%d type/member pairs)", strings.Join(names, ", "), n), strings.Join(bad, ", ")+" — "+why)
+}
+
+// checkOutboxAfterCallbacks: in sideEffectActor.PostOutbox the activity is stored and listed only
+// after the side-effect callbacks have been dispatched and have succeeded — no callback dispatch
+// (SocialCallbacks, the resolver's Resolve) can still execute after addToOutbox. An activity the
+// default callbacks refuse (ErrObjectRequired / ErrTargetRequired ⇒ 400) must change nothing.
+func checkOutboxAfterCallbacks(res *Result, p *Pub, E *Effects, rule string) {
+	fn := p.MustFunc(res, rule, "sideEffectActor.PostOutbox")
+	if fn == nil {
+		return
+	}
+	stores := findCalls(E, fn, "sideEffectActor.addToOutbox")
+	var dispatch []ssa.CallInstruction
+	for _, ci := range callsIn(fn) {
+		cc := ci.Common()
+		if cc.IsInvoke() && (cc.Method.Name() == "SocialCallbacks" || cc.Method.Name() == "Resolve") {
+			dispatch = append(dispatch, ci)
+		} else if f := cc.StaticCallee(); f != nil && f.Name() == "Resolve" {
+			dispatch = append(dispatch, ci)
+		}
+	}
+	res.check(len(stores) >= 1 && len(dispatch) >= 2, rule, fname(fn), p.pos(fn), "PostOutbox dispatches to the callbacks and stores the activity", fmt.Sprintf("%d addToOutbox calls, %d dispatch calls", len(stores), len(dispatch)))
+	for _, st := range stores {
+		bad := ""
+		for _, d := range dispatch {
+			if reachesInstr(st, d) {
+				bad = p.pos(d)
+			}
+		}
+		res.check(bad == "", rule, fname(fn), p.pos(st), "the activity is stored and listed only after the callbacks ran (nothing is dispatched after addToOutbox)", "the callback dispatch at "+bad+" can still run after the activity was stored: an activity a callback refuses (missing object or target ⇒ 400) has already been created and listed in the outbox")
+	}
+}
+
+// derivedFromByGetters: v is root, or read out of root through getters only (Get…, Begin, Next,
+// Prev, At, End), interface conversions / assertions and merges — i.e. v is (part of) the very
+// value root denotes, not a new value root was put into.
+func derivedFromByGetters(v ssa.Value, root ssa.Value, seen map[ssa.Value]bool, depth int) bool {
+	if v == root {
+		return true
+	}
+	if depth > 12 || seen[v] {
+		return false
+	}
+	seen[v] = true
+	switch x := v.(type) {
+	case *ssa.Call:
+		cc := x.Common()
+		if cc.IsInvoke() {
+			n := cc.Method.Name()
+			if strings.HasPrefix(n, "Get") || n == "Begin" || n == "Next" || n == "Prev" || n == "At" {
+				return derivedFromByGetters(cc.Value, root, seen, depth+1)
+			}
+		}
+	case *ssa.TypeAssert:
+		return derivedFromByGetters(x.X, root, seen, depth+1)
+	case *ssa.ChangeInterface:
+		return derivedFromByGetters(x.X, root, seen, depth+1)
+	case *ssa.MakeInterface:
+		return derivedFromByGetters(x.X, root, seen, depth+1)
+	case *ssa.Extract:
+		return derivedFromByGetters(x.Tuple, root, seen, depth+1)
+	case *ssa.Phi:
+		for _, e := range x.Edges {
+			if derivedFromByGetters(e, root, seen, depth+1) {
+				return true
+			}
+		}
+	case *ssa.UnOp:
+		// load of a closure's captured variable or a spilled local
+		if x.Op == token.MUL {
+			if al, ok := x.X.(*ssa.Alloc); ok {
+				for _, ref := range *al.Referrers() {
+					if st, ok := ref.(*ssa.Store); ok && st.Addr == ssa.Value(al) && derivedFromByGetters(st.Val, root, seen, depth+1) {
+						return true
+					}
+				}
+			}
+		}
+	}
+	return false
+}
+
+// checkCallbacksLeaveActivity: the default federating callbacks read the activity they are handed
+// and never write into it (or into a value read out of it): the same value is afterwards
+// serialised for forwarding, and the forwarded payload must have the members that were received.
+func checkCallbacksLeaveActivity(res *Result, p *Pub, rule string) {
+	n := 0
+	for _, fn := range p.Funcs {
+		root := fn
+		for root.Parent() != nil {
+			root = root.Parent()
+		}
+		if !strings.HasPrefix(fname(root), "FederatingWrappedCallbacks.") || root.Signature.Recv() == nil {
+			continue
+		}
+		// the activity parameter of the callback (second parameter after the context), also as
+		// seen from its closures
+		if len(root.Params) < 3 || !isVocabIface(root.Params[2].Type()) {
+			continue
+		}
+		act := root.Params[2]
+		var roots []ssa.Value
+		if fn == root {
+			roots = append(roots, act)
+		} else {
+			for _, fv := range fn.FreeVars {
+				if fv.Name() == act.Name() {
+					roots = append(roots, fv)
+				}
+			}
+			// a closure called per element with the element as argument: a parameter that receives,
+			// at some call in the callback, a value read out of the activity is a root as well
+			for _, ci := range callsIn(root) {
+				cc := ci.Common()
+				if cc.IsInvoke() {
+					continue
+				}
+				callee := cc.StaticCallee()
+				if callee != fn {
+					continue
+				}
+				for ai, a := range cc.Args {
+					if ai < len(fn.Params) && derivedFromByGetters(a, act, map[ssa.Value]bool{}, 0) {
+						roots = append(roots, fn.Params[ai])
+					}
+				}
+			}
+		}
+		if len(roots) == 0 {
+			continue
+		}
+		n++
+		for _, ci := range callsIn(fn) {
+			cc := ci.Common()
+			if !cc.IsInvoke() || !isMutatorName(cc.Method.Name()) || !isVocabIface(cc.Value.Type()) {
+				continue
+			}
+			for _, r := range roots {
+				if derivedFromByGetters(cc.Value, r, map[ssa.Value]bool{}, 0) {
+					res.bad(rule, fname(fn), p.pos(ci), "the received activity is not modified by the default callbacks", cc.Method.Name()+" is called on a value read out of the activity the callback was handed: the same value is serialised afterwards for forwarding, so what is forwarded is no longer what was received")
+				}
+			}
+		}
+	}
+	res.Count(rule+" federating callbacks (and closures) examined", n, 10)
+	res.ok(rule, "FederatingWrappedCallbacks", "-", "callbacks examined for writes into the received activity")
+}
+
+// checkFreshDecodeTargets: every json.Unmarshal in package pub decodes into a variable that is
+// fresh for that decode: a local of the function activation doing the decode and — if the decode
+// sits in a loop — declared inside the loop body. json.Unmarshal into a non-nil map keeps the
+// entries already there: a target shared between decodes (a variable captured by the per-element
+// closure, a field, a variable declared before the loop) lets members of one fetched document
+// show up in the next.
+func checkFreshDecodeTargets(res *Result, p *Pub, rule string) {
+	n := 0
+	for _, fn := range p.Funcs {
+		for _, ci := range callsIn(fn) {
+			cc := ci.Common()
+			f := cc.StaticCallee()
+			if f == nil || f.Pkg == nil || f.Pkg.Pkg.Path() != "encoding/json" || f.Name() != "Unmarshal" || len(cc.Args) != 2 {
+				continue
+			}
+			n++
+			target := unwrap(cc.Args[1])
+			al, isAlloc := target.(*ssa.Alloc)
+			why := ""
+			switch {
+			case !isAlloc:
+				why = "the target is " + valueLabel(target) + ", which outlives this decode (captured variable, field or parameter)"
+			case al.Parent() != fn:
+				why = "the target belongs to another function activation"
+			default:
+				if loop := loopBlocks(ci.Block()); len(loop) > 0 && !loop[al.Block()] {
+					why = "the target is declared before the loop the decode sits in"
+				}
+			}
+			res.check(why == "", rule, fname(fn), p.pos(ci), "json.Unmarshal decodes into a variable that is fresh for this decode", why+": json.Unmarshal keeps the entries of a non-nil map, so members of a document decoded earlier are attributed to this one")
+		}
+	}
+	res.Count(rule+" json.Unmarshal sites in pub", n, 5)
 }
